@@ -227,6 +227,15 @@ class Ctx:
         except OSError:
             pass
         cmd = ["go", "build", "-tags", tags, "-o", out]
+        if os.path.abspath(REPO) != "/repo":
+            # mutation rehearsal: build the harness against another tree (VERIF_REPO) through an alternative go.mod
+            alt = os.path.join(BUILD, "alt_%s.mod" % hashlib.sha1(REPO.encode()).hexdigest()[:10])
+            with open(os.path.join(hdir, "go.mod")) as f:
+                mod = f.read().replace("=> /repo", "=> " + os.path.abspath(REPO))
+            with open(alt, "w") as f:
+                f.write(mod)
+            shutil.copyfile(os.path.join(REPO, "go.sum"), alt[:-4] + ".sum")
+            cmd.append("-modfile=" + alt)
         if race:
             cmd.append("-race")
         if extra:
